@@ -149,6 +149,7 @@ impl BlockWriter {
         }
 
         let mut offset: usize = 0;
+        let mut stalled = false;
         loop {
             #[cfg(feature = "ypo_flute_verif")]
             crate::verif::tick("blockwriter::decode_write_pkt");
@@ -158,6 +159,18 @@ impl BlockWriter {
             if offset == pkt.len() {
                 break;
             }
+            if size == 0 {
+                if stalled {
+                    // The decoder does not consume its input anymore (data after the end of
+                    // the compressed stream): waiting for room in the ring would loop forever
+                    return Err(FluteError::new(
+                        "Decompression stalled, transfer length does not match the compressed stream",
+                    ));
+                }
+                stalled = true;
+            } else {
+                stalled = false;
+            }
         }
         Ok(())
     }
@@ -165,9 +178,9 @@ impl BlockWriter {
     fn decoder_read(&mut self, writer: &dyn ObjectWriter, now: SystemTime) -> Result<()> {
         let decoder = self.decoder.as_mut().unwrap();
 
-        if self.content_length_left == Some(0) {
-            return Ok(());
-        }
+        // Once the announced content length has been written the remaining output is dropped,
+        // but the decoder must still be drained, else it stops consuming the next blocks
+        let mut discard = self.content_length_left == Some(0);
 
         loop {
             #[cfg(feature = "ypo_flute_verif")]
@@ -182,6 +195,10 @@ impl BlockWriter {
                 return Ok(());
             }
 
+            if discard {
+                continue;
+            }
+
             if let Some(ctx) = self.md5_context.as_mut() {
                 ctx.consume(&self.buffer[..size])
             }
@@ -191,7 +208,7 @@ impl BlockWriter {
             if let Some(content_length_left) = self.content_length_left.as_mut() {
                 *content_length_left = content_length_left.saturating_sub(size);
                 if *content_length_left == 0 {
-                    return Ok(());
+                    discard = true;
                 }
             }
         }
